@@ -255,7 +255,7 @@ def run(ctx):
     ctx.level = 'other'
     ctx.assumptions = [
         'callers follow the documented set_length -> allocate l slots -> unmarshal protocol (the Go side of it is not analysable here)',
-        'ARMv6-M assembly bodies are not analysed (GNU divided Thumb syntax cannot be assembled by the LLVM tools in this image)',
+        'ARMv6-M assembly: footprints are decided on the disassembly of the sources after the divided-to-unified syntax rewrite (jpv/thumbconv.py, trusted)',
         'subscripts whose index depends on run-time data are counted but not decided (see subscripts_runtime_index_not_decided)']
     progs = ctx.programs()
     for cfg, prog in progs.items():
@@ -264,7 +264,7 @@ def run(ctx):
         no = rule_overlay_align(ctx, cfg, prog)
         ctx.floor('R-ALIGN overlays[%s]' % cfg, no, 12)
         for a in sorted(ASSUMED):
-            note = 'untyped parameters of %s are assumed suitably aligned: its only callers are assembly' % a
+            note = 'untyped parameters of %s: its only callers are the ARMv6-M assembly routines, whose arguments are located by the Thumb interpreter (see the notes: the value argument is 4 modulo 8 while the C++ type asks for 8; word-aligned for every access ARMv6-M can make)' % a
             if note not in ctx.assumptions:
                 ctx.assumptions.append(note)
         nf = marshal.rule_foot_and_pair(ctx, cfg, prog)
